@@ -1,5 +1,5 @@
 \* liveness under fairness: once deletion has started and faults stop, both finalizers are eventually removed
-CONSTANTS Pods = {"p1"}  Tol = {}
+CONSTANTS Pods = {"p1"}  Tol = {}  Late = {}
   Starts = {"registered", "launched"}
   VaOwners = {"p1"}  TGPs <- BoolT  Instants <- BoolF
   MaxFaults = 1  MaxRestarts = 0  MaxLen = 1000  MaxSpont = 0
